@@ -394,27 +394,157 @@ fn abs_loss(loss: &serde_json::Value, nkg: usize) -> Option<String> {
 }
 
 // ---------------------------------------------------------------- histories
+/// Generator-side tracker of the rule catalogs (only used to AIM operations at interesting states;
+/// the expected behaviour always comes from the Coq model): clause list per (kg, name).
+#[derive(Clone, Default)]
+struct Track {
+    rules: Vec<Vec<Option<Vec<usize>>>>,
+}
+impl Track {
+    fn new(nkg: usize) -> Track {
+        Track { rules: vec![vec![None; NAMES.len()]; nkg] }
+    }
+    fn arity(v: usize) -> usize {
+        if v == 3 { 1 } else { 2 }
+    }
+    fn apply(&mut self, op: &Op) {
+        match op {
+            Op::Reg(k, n, v) if *k < self.rules.len() => {
+                let e = &mut self.rules[*k][*n];
+                match e {
+                    Some(cl) if !cl.is_empty() => {
+                        if Track::arity(cl[0]) == Track::arity(*v) && !cl.contains(v) {
+                            cl.push(*v);
+                        }
+                    }
+                    _ => *e = Some(vec![*v]),
+                }
+            }
+            Op::Drop(k, n) | Op::DropRel(k, n) if *k < self.rules.len() => self.rules[*k][*n] = None,
+            Op::Clear(k, n) if *k < self.rules.len() => {
+                if let Some(cl) = &mut self.rules[*k][*n] {
+                    cl.clear();
+                }
+            }
+            Op::RmClause(k, n, i) if *k < self.rules.len() => {
+                let mut gone = false;
+                if let Some(cl) = &mut self.rules[*k][*n] {
+                    if *i < cl.len() {
+                        cl.remove(*i);
+                        gone = cl.is_empty();
+                    }
+                }
+                if gone {
+                    self.rules[*k][*n] = None;
+                }
+            }
+            Op::Replace(k, n, i, v) if *k < self.rules.len() => {
+                if let Some(cl) = &mut self.rules[*k][*n] {
+                    if *i < cl.len() {
+                        cl[*i] = *v;
+                    }
+                }
+            }
+            Op::DropPrefix(k, p) if *k < self.rules.len() => {
+                for (n, name) in NAMES.iter().enumerate() {
+                    if name.starts_with(PREFIXES[*p]) {
+                        self.rules[*k][n] = None;
+                    }
+                }
+            }
+            _ => {}
+        }
+    }
+    /// (kg, name, number of clauses) of every rule that currently has clauses
+    fn live(&self) -> Vec<(usize, usize, usize)> {
+        let mut v = vec![];
+        for (k, kg) in self.rules.iter().enumerate() {
+            for (n, e) in kg.iter().enumerate() {
+                if let Some(cl) = e {
+                    if !cl.is_empty() {
+                        v.push((k, n, cl.len()));
+                    }
+                }
+            }
+        }
+        v
+    }
+}
+
+fn gen_op(r: &mut Rng, nkg: usize, tr: &Track) -> Op {
+    // mostly valid kg, sometimes a kg that does not exist
+    let k = if r.chance(1, 12) { 1 } else { r.below(nkg as u64) as usize };
+    let n = r.below(4) as usize;
+    let live = tr.live();
+    match r.below(22) {
+        0..=5 => Op::Reg(k, n, r.below(4) as usize),
+        6 => Op::Drop(k, n),
+        7 => Op::Clear(k, n),
+        // remove-clause: half of the time aimed at an existing rule (first / last / only clause)
+        8 | 9 | 10 => {
+            if !live.is_empty() && r.chance(2, 3) {
+                let (lk, ln, cnt) = *r.pick(&live);
+                Op::RmClause(lk, ln, if r.chance(1, 2) { 0 } else { cnt - 1 })
+            } else {
+                Op::RmClause(k, n, r.below(3) as usize)
+            }
+        }
+        11 => Op::Replace(k, n, r.below(3) as usize, r.below(4) as usize),
+        12 => Op::DropPrefix(k, r.below(4) as usize),
+        13..=15 => Op::SReg(k, n, r.below(4) as usize),
+        16 => Op::SUpd(k, n, r.below(4) as usize),
+        17 => Op::SRem(k, n),
+        18 | 19 => Op::DropRel(k, n),
+        _ => Op::Restart,
+    }
+}
+
 fn gen_history(r: &mut Rng) -> (usize, Vec<Op>) {
     let nkg = if r.chance(2, 3) { 1 } else { 2 };
-    let len = r.range(1, 8) as usize;
+    let mut tr = Track::new(nkg);
     let mut ops = vec![];
-    for _ in 0..len {
-        // mostly valid kg, sometimes a kg that does not exist
-        let k = if r.chance(1, 12) { 1 } else { r.below(nkg as u64) as usize };
+    if r.chance(1, 3) {
+        // TARGETED family: the FINAL catalog operation removes the last remaining clause of a rule
+        // (single-clause rule, or a multi-clause rule taken down clause by clause), optionally followed
+        // by a clean restart: nothing later can repair a removal that was not persisted.
+        for _ in 0..r.below(3) {
+            let op = gen_op(r, nkg, &tr);
+            tr.apply(&op);
+            ops.push(op);
+        }
+        let k = r.below(nkg as u64) as usize;
         let n = r.below(4) as usize;
-        let op = match r.below(20) {
-            0..=5 => Op::Reg(k, n, r.below(4) as usize),
-            6 => Op::Drop(k, n),
-            7 => Op::Clear(k, n),
-            8 => Op::RmClause(k, n, r.below(3) as usize),
-            9 => Op::Replace(k, n, r.below(3) as usize, r.below(4) as usize),
-            10 => Op::DropPrefix(k, r.below(4) as usize),
-            11..=13 => Op::SReg(k, n, r.below(4) as usize),
-            14 => Op::SUpd(k, n, r.below(4) as usize),
-            15 => Op::SRem(k, n),
-            16 | 17 => Op::DropRel(k, n),
-            _ => Op::Restart,
-        };
+        let base = if r.chance(1, 4) { 3 } else { r.below(3) as usize };
+        let first = Op::Reg(k, n, base);
+        tr.apply(&first);
+        ops.push(first);
+        if base != 3 && r.chance(1, 2) {
+            let second = Op::Reg(k, n, (base + 1) % 3);
+            tr.apply(&second);
+            ops.push(second);
+        }
+        if r.chance(1, 4) {
+            let other = Op::SReg(k, (n + 1) % 4, r.below(3) as usize);
+            ops.push(other);
+        }
+        loop {
+            let cnt = tr.rules[k][n].as_ref().map_or(0, |c| c.len());
+            if cnt == 0 {
+                break;
+            }
+            let rm = Op::RmClause(k, n, if r.chance(1, 2) { 0 } else { cnt - 1 });
+            tr.apply(&rm);
+            ops.push(rm);
+        }
+        if r.chance(1, 2) {
+            ops.push(Op::Restart);
+        }
+        return (nkg, ops);
+    }
+    let len = r.range(1, 8) as usize;
+    for _ in 0..len {
+        let op = gen_op(r, nkg, &tr);
+        tr.apply(&op);
         ops.push(op);
     }
     (nkg, ops)
@@ -435,6 +565,16 @@ fn corpus() -> Vec<(usize, Vec<Op>)> {
         // errors only: nothing may be written
         (1, vec![Op::Drop(0, 0), Op::SReg(0, 0, 3), Op::RmClause(0, 1, 0), Op::Reg(1, 0, 0), Op::DropRel(0, 2)]),
         (1, vec![Op::Reg(0, 3, 1), Op::Replace(0, 3, 0, 0), Op::Restart, Op::SUpd(0, 3, 1), Op::SUpd(0, 3, 2), Op::Restart, Op::Drop(0, 3)]),
+        // remove-clause on the ONLY clause of a rule as the final catalog operation, then a clean restart
+        (1, vec![Op::Reg(0, 0, 0), Op::RmClause(0, 0, 0), Op::Restart]),
+        // ... and without restart: every crash point after the acknowledged removal must not bring the rule back
+        (1, vec![Op::Reg(0, 2, 1), Op::RmClause(0, 2, 0)]),
+        // a multi-clause rule taken down to nothing, last removal is the final catalog write, second KG untouched
+        (2, vec![Op::Reg(1, 1, 0), Op::Reg(1, 1, 1), Op::Reg(1, 1, 2), Op::Reg(0, 3, 3), Op::RmClause(1, 1, 2), Op::RmClause(1, 1, 0), Op::RmClause(1, 1, 0), Op::Restart]),
+        // removal of the last clause while a schema of the same name stays, restart, re-register with another arity
+        (1, vec![Op::SReg(0, 3, 1), Op::Reg(0, 3, 3), Op::RmClause(0, 3, 0), Op::Restart, Op::Reg(0, 3, 0)]),
+        // clear (rule stays registered with no clauses) vs remove-clause (rule disappears), both final before restart
+        (1, vec![Op::Reg(0, 1, 0), Op::Clear(0, 1), Op::Restart, Op::Reg(0, 1, 3), Op::RmClause(0, 1, 0), Op::Restart]),
     ]
 }
 
